@@ -56,11 +56,11 @@ func contractMentions(c *Contract, p string) bool {
 }
 
 type runResult struct {
-	obls     []*Obl
-	fcs      []*FnCtx
-	errors   []string
-	started  time.Time
-	funcs    []string
+	obls    []*Obl
+	fcs     []*FnCtx
+	errors  []string
+	started time.Time
+	funcs   []string
 }
 
 func (e *Engine) generate(prop string, only string) *runResult {
